@@ -25,6 +25,9 @@ TStep ==
                    /\ IsBST(e.shape)
                    /\ Keys(e.shape) = {e.pre[i] : i \in DOMAIN e.pre} \ {e.rem[i] : i \in DOMAIN e.rem}
                    /\ cs' = <<Invalid, Invalid>>
+               [] e.op = "fork" ->       \* the tree is replaced by its Clone; the original is changed and dropped
+                   /\ e.shape = tr /\ tr' = tr
+                   /\ cs' = <<Invalid, Invalid>>
                [] e.op = "cursor" ->
                    /\ tr' = tr
                    /\ cs' = [cs EXCEPT ![e.c] = IF e.key \in Keys(tr) THEN At(PathOf(tr, e.key)) ELSE Invalid]
